@@ -16,6 +16,7 @@ EXTENDS Integers, Sequences, FiniteSets, TLC, Json, IOUtils
 
 Rec == ndJsonDeserialize(IOEnv.TRACE)
 KnownS16 == IOEnv.KNOWN_S16 = "1"
+KnownS3 == IOEnv.KNOWN_S3 = "1"
 
 VARIABLES l, run, cfg,
   matchDone,   \* the W-R pair was seen matched on both sides
@@ -23,13 +24,18 @@ VARIABLES l, run, cfg,
   written,     \* sequence of [item, phase]
   got,         \* [{"R","R2"} -> sequence of items]
   gone,        \* readers deleted (directly or with their participant)
+  guid,        \* [{"R","R2"} -> <<GUID of the reader as hex text, port offset of its participant>>] (Create lines)
+  nack,        \* {<<reader GUID, sn>>}: NACKFRAGs that reached the network since loss was last switched
+  refrag,      \* {<<port offset, sn>>}: DATAFRAGs sent to that port since loss was last switched
   viol, known
-tvars == <<l, run, cfg, matchDone, lateDone, written, got, gone, viol, known>>
+wire == <<guid, nack, refrag>>
+tvars == <<l, run, cfg, matchDone, lateDone, written, got, gone, guid, nack, refrag, viol, known>>
 
 NoCfg == [keyed |-> TRUE, wrel |-> TRUE, rrel |-> TRUE, wtl |-> TRUE, rtl |-> TRUE, depth |-> 0, late |-> "none", third |-> FALSE, del |-> "none"]
 TraceInit ==
   /\ l = 1 /\ run = 0 /\ cfg = NoCfg /\ matchDone = FALSE /\ lateDone = FALSE
   /\ written = <<>> /\ got = [w \in {"R", "R2"} |-> <<>>] /\ gone = {} /\ viol = {} /\ known = {}
+  /\ guid = [w \in {"R", "R2"} |-> <<"", 0>>] /\ nack = {} /\ refrag = {}
 
 Compat == (cfg.wrel \/ ~cfg.rrel) /\ (cfg.wtl \/ ~cfg.rtl)
 Compat2 == cfg.wrel /\ (cfg.wtl \/ cfg.late # "tl")
@@ -49,14 +55,27 @@ RecvViol(e) ==
   \cup (IF e.val /\ item < SMaxOf(Values(sofar)) THEN {"C07_out_of_order"} ELSE {})
 
 (* ------------------------------------- delivery judged in a loss-free suffix *)
+\* Known finding S3 seen from outside: the writer's sequence number of written[i] is i (one writer, every write and
+\* dispose takes the next number).  A reliable reader hands over in order, so everything behind the lowest missing
+\* number is held back with it.  The signature: in the loss-free suffix the reader asks for fragments of exactly that
+\* number by NACKFRAG and the writer sends no DATAFRAG of it at all.
+SNsOf(ph) == {i \in DOMAIN written : written[i].phase \in ph}
+MissingSNs(who, ph) == {i \in SNsOf(ph) : written[i].item \notin Range(got[who])}
+SMinOf(S) == CHOOSE x \in S : \A y \in S : x <= y
+S3Sig(who, miss) == miss # {} /\ <<guid[who][1], SMinOf(miss)>> \in nack /\ <<guid[who][2], SMinOf(miss)>> \notin refrag
+S3Clause == "C07_S3_delivery_stuck_behind_sample_with_lost_fragment"
+
 \* R: reliable keep-all pair that was matched before the first write: everything written, in the order written
 SettleR(phases) ==
-  IF ~(Compat /\ cfg.wrel /\ cfg.rrel /\ cfg.depth = 0 /\ matchDone /\ "R" \notin gone) THEN {}
+  IF ~(Compat /\ cfg.wrel /\ cfg.rrel /\ cfg.depth = 0 /\ matchDone /\ "R" \notin gone) THEN [v |-> {}, k |-> {}]
   ELSE LET want == ItemSeq(phases)
            have == got["R"]
-       IN   (IF Values(want) \ Values(have) # {} THEN {"C07_sample_missing"} ELSE {})
-       \cup (IF {x \in Range(want) : x < 0} \ Range(have) # {} THEN {"C07_disposal_missing"} ELSE {})
-       \cup (IF Range(want) \subseteq Range(have) /\ have # want THEN {"C07_disposal_out_of_order"} ELSE {})
+           s3 == S3Sig("R", MissingSNs("R", phases))
+           miss ==   (IF Values(want) \ Values(have) # {} THEN {"C07_sample_missing"} ELSE {})
+                \cup (IF {x \in Range(want) : x < 0} \ Range(have) # {} THEN {"C07_disposal_missing"} ELSE {})
+       IN [v |-> (IF s3 /\ KnownS3 THEN {} ELSE miss)
+                 \cup (IF Range(want) \subseteq Range(have) /\ have # want THEN {"C07_disposal_out_of_order"} ELSE {}),
+           k |-> IF s3 /\ KnownS3 /\ miss # {} THEN {S3Clause} ELSE {}]
 
 \* R2, the late joiner: TransientLocal -> the retained history (keep-all: all of it) and everything later;
 \* Volatile -> only what was written after it was matched
@@ -70,10 +89,13 @@ SettleR2 ==
                      THEN (IF cfg.third THEN {"C07_volatile_late_joiner_got_history"}
                                         ELSE {"C07_S16_volatile_late_joiner_in_participant_with_reader_got_history"})
                      ELSE {}
-           v ==   (IF must /\ new \ have # {} THEN {"C07_sample_missing"} ELSE {})
-             \cup (IF must /\ cfg.late = "tl" /\ old \ have # {} THEN {"C07_late_joiner_missed_history"} ELSE {})
+           s3 == S3Sig("R2", MissingSNs("R2", IF cfg.late = "tl" THEN {1, 2, 3} ELSE {2}))
+           miss ==   (IF must /\ new \ have # {} THEN {"C07_sample_missing"} ELSE {})
+                \cup (IF must /\ cfg.late = "tl" /\ old \ have # {} THEN {"C07_late_joiner_missed_history"} ELSE {})
+           v ==   (IF s3 /\ KnownS3 THEN {} ELSE miss)
              \cup (IF cfg.third \/ ~KnownS16 THEN hist ELSE {})
-       IN [v |-> v, k |-> IF ~cfg.third /\ KnownS16 THEN hist ELSE {}]
+       IN [v |-> v, k |-> (IF ~cfg.third /\ KnownS16 THEN hist ELSE {})
+                          \cup (IF s3 /\ KnownS3 /\ miss # {} THEN {S3Clause} ELSE {})]
 
 SyncViol(e) ==
   CASE e.phase = "match" ->
@@ -97,40 +119,50 @@ Step ==
                        late |-> e.late, third |-> e.third, del |-> e.del]
             /\ matchDone' = FALSE /\ lateDone' = FALSE /\ written' = <<>> /\ got' = [w \in {"R", "R2"} |-> <<>>]
             /\ gone' = {} /\ viol' = {} /\ known' = {}
+            /\ guid' = [w \in {"R", "R2"} |-> <<"", 0>>] /\ nack' = {} /\ refrag' = {}
        [] e.ev = "Create" ->
             /\ viol' = viol \cup (IF ~e.ok THEN {"C07_entity_creation_failed"} ELSE {})
-            /\ UNCHANGED <<run, cfg, matchDone, lateDone, written, got, gone, known>>
+            /\ guid' = IF e.what \in {"R", "R2"} THEN [guid EXCEPT ![e.what] = <<e.guid, e.port>>] ELSE guid
+            /\ UNCHANGED <<run, cfg, matchDone, lateDone, written, got, gone, known, nack, refrag>>
        [] e.ev = "St" ->
             /\ viol' = viol \cup (IF e.k = "M" /\ (e.cur < 0 \/ e.chg \notin {-1, 1}) THEN {"C07_matched_status_malformed"} ELSE {})
-            /\ UNCHANGED <<run, cfg, matchDone, lateDone, written, got, gone, known>>
+            /\ UNCHANGED <<run, cfg, matchDone, lateDone, written, got, gone, known, wire>>
        [] e.ev = "Sync" ->
             /\ viol' = viol \cup SyncViol(e)
             /\ matchDone' = IF e.phase \in {"match", "back"} THEN e.done ELSE IF e.phase = "lost" THEN FALSE ELSE matchDone
             /\ lateDone' = IF e.phase = "late" THEN e.done ELSE lateDone
-            /\ UNCHANGED <<run, cfg, written, got, gone, known>>
+            /\ UNCHANGED <<run, cfg, written, got, gone, known, wire>>
        [] e.ev = "Write" ->
             /\ written' = Append(written, [item |-> e.id, phase |-> e.phase])
             /\ viol' = viol \cup (IF ~e.ok THEN {"C07_write_rejected"} ELSE {})
-            /\ UNCHANGED <<run, cfg, matchDone, lateDone, got, gone, known>>
+            /\ UNCHANGED <<run, cfg, matchDone, lateDone, got, gone, known, wire>>
        [] e.ev = "Dispose" ->
             /\ written' = Append(written, [item |-> 0 - e.key, phase |-> e.phase])
             /\ viol' = viol \cup (IF ~e.ok THEN {"C07_write_rejected"} ELSE {})
-            /\ UNCHANGED <<run, cfg, matchDone, lateDone, got, gone, known>>
+            /\ UNCHANGED <<run, cfg, matchDone, lateDone, got, gone, known, wire>>
        [] e.ev = "Recv" ->
             /\ got' = [got EXCEPT ![e.who] = Append(@, IF e.val THEN e.id ELSE 0 - e.key)]
             /\ viol' = viol \cup RecvViol(e)
-            /\ UNCHANGED <<run, cfg, matchDone, lateDone, written, gone, known>>
+            /\ UNCHANGED <<run, cfg, matchDone, lateDone, written, gone, known, wire>>
        [] e.ev = "Settle" ->
-            /\ LET r2 == IF e.phase = 2 THEN SettleR2 ELSE [v |-> {}, k |-> {}] IN
-               /\ viol' = viol \cup SettleR({1, 2, 3}) \cup r2.v
-               /\ known' = known \cup r2.k
-            /\ UNCHANGED <<run, cfg, matchDone, lateDone, written, got, gone>>
+            /\ LET r2 == IF e.phase = 2 THEN SettleR2 ELSE [v |-> {}, k |-> {}]
+                   r1 == SettleR({1, 2, 3}) IN
+               /\ viol' = viol \cup r1.v \cup r2.v
+               /\ known' = known \cup r1.k \cup r2.k
+            /\ UNCHANGED <<run, cfg, matchDone, lateDone, written, got, gone, wire>>
        [] e.ev = "Delete" ->
             /\ gone' = gone \cup (CASE e.what = "R" -> {"R"}
                                     [] e.what = "PB" -> IF cfg.third THEN {"R"} ELSE {"R", "R2"}
                                     [] OTHER -> {})
-            /\ UNCHANGED <<run, cfg, matchDone, lateDone, written, got, viol, known>>
-       [] e.ev \in {"Blackout", "End"} -> UNCHANGED <<run, cfg, matchDone, lateDone, written, got, gone, viol, known>>
+            /\ UNCHANGED <<run, cfg, matchDone, lateDone, written, got, viol, known, wire>>
+       [] e.ev = "Loss" ->    \* loss switched on or off: a new window of observation starts
+            /\ nack' = {} /\ refrag' = {}
+            /\ UNCHANGED <<run, cfg, matchDone, lateDone, written, got, gone, viol, known, guid>>
+       [] e.ev = "Net" ->
+            /\ nack' = IF e.k = "NACKFRAG" /\ e.fate = "fwd" THEN nack \cup {<<e.rg, e.sn>>} ELSE nack
+            /\ refrag' = IF e.k = "FRAG" THEN refrag \cup {<<e.to, e.sn>>} ELSE refrag
+            /\ UNCHANGED <<run, cfg, matchDone, lateDone, written, got, gone, viol, known, guid>>
+       [] e.ev \in {"Blackout", "End"} -> UNCHANGED <<run, cfg, matchDone, lateDone, written, got, gone, viol, known, wire>>
   /\ (viol' # viol /\ viol' # {}) =>
         PrintT("VIOL line=" \o ToString(l) \o " run=" \o ToString(run') \o " clauses=" \o ToString(viol' \ viol))
   /\ (known' # known /\ known' # {}) =>
